@@ -35,6 +35,30 @@ def rows_of(a):
 
 def run_case(c, femio, meshio, work):
     r = {'id': c['id']}
+    if c.get('stream') == 'tables':
+        from femio import config
+        E = femio.FEMElementalAttribute
+        r['table'] = [[k, v] for k, v in config.DICT_FEMIO_ELEMENT_TO_MESHIO_ELEMENT.items()]
+        r['element_types'] = list(E.ELEMENT_TYPES)
+        r['export'], r['import'], r['ranks'] = [], [], []
+        for t, a in c['arity'].items():
+            row = (np.arange(a, dtype=np.int64) * 3 + 7)[None, :]
+            dummy = E('ELEMENT', {t: femio.FEMAttribute(t, np.array([1]), row)})
+            out = dummy._to_meshio(t, dict.__getitem__(dummy, t))
+            r['export'].append([t, [int(x) for x in row[0]], [int(x) for x in np.asarray(out)[0]]])
+        for vt, a in c['vtk_arity'].items():
+            row = (np.arange(a, dtype=np.int64) * 3 + 7)[None, :]
+            fa = E._from_meshio(vt, row)
+            r['import'].append([vt, [int(x) for x in row[0]], [int(x) - 1 for x in np.asarray(fa.data)[0]]])
+        for rank in (1, 2, 3, 4):
+            data = np.zeros((2,) + (2,) * (rank - 1))
+            attrs = femio.FEMAttributes({'x': femio.FEMAttribute('x', np.array([5, 9]), data)})
+            try:
+                pd_ = attrs.to_meshio(np.array([5, 9]))
+            except TypeError:
+                pd_ = attrs.to_meshio()
+            r['ranks'].append([rank, 'x' in pd_])
+        return r
     if c.get('stream') == 'tet2perm':
         E = femio.FEMElementalAttribute
         x = np.array(c['rows'], dtype=np.int64)
